@@ -29,6 +29,21 @@ func main() {
 		extra = os.Args[7:]
 	}
 	for _, a := range extra {
+		if strings.HasPrefix(a, "item:") {
+			q := strings.Split(a, ":")
+			c.Off, _ = strconv.Atoi(q[1])
+			c.Len, _ = strconv.Atoi(q[2])
+			c.Flags, _ = strconv.Atoi(q[3])
+			continue
+		}
+		if strings.HasPrefix(a, "feat:") {
+			q := strings.Split(a, ":")
+			v, _ := strconv.Atoi(q[2])
+			st, _ := strconv.Atoi(q[3])
+			en, _ := strconv.Atoi(q[4])
+			c.Feats = append(c.Feats, c05.Feat{Tag: q[1], Value: uint32(v), Start: st, End: en})
+			continue
+		}
 		kv := strings.SplitN(a, "=", 2)
 		f, _ := strconv.ParseFloat(kv[1], 32)
 		c.Vars = append(c.Vars, c05.Var{Tag: kv[0], Value: float32(f)})
